@@ -11,13 +11,17 @@ Inductive probe :=
 | PSelf (r f s : string)            (* $o->f() whose body is `return self::s();` *)
 | PStatic (r f s : string)          (* ... `return static::s();` *)
 | PParent (r f g : string)          (* ... `return parent::g();` *)
-| PLike (n T : string).             (* $o like T *)
+| PLike (n T : string)              (* $o like T *)
+| PParentStatic (r f g s : string)  (* $o->f(): `return parent::g();`, g: `return static::s();` *)
+| PParentSelf (r f g s : string)    (* ... g: `return self::s();` *)
+| PParentParent (r f g h : string). (* ... g: `return parent::h();` *)
 Inductive ans := ABool (b : bool) | AName (o : option string) | AErr.
 
 Definition probe_kind (p : probe) : nat :=
   match p with
   | PInstanceof _ _ => 1 | PInstanceofThis _ _ => 2 | PParam _ _ => 3 | PParamThis _ _ => 4 | PCatch _ _ => 5
   | PCall _ _ => 6 | PSelf _ _ _ => 7 | PStatic _ _ _ => 8 | PParent _ _ _ => 9 | PLike _ _ => 10
+  | PParentStatic _ _ _ _ => 11 | PParentSelf _ _ _ _ => 12 | PParentParent _ _ _ _ => 13
   end%nat.
 
 Definition of_bool (o : outcome bool) : ans := match o with Ok b => ABool b | _ => AErr end.
@@ -35,6 +39,9 @@ Definition model_ans (t : table) (p : probe) : ans :=
   | PStatic r f s => of_name (via_static t r f s)
   | PParent r f g => of_name (via_parent t r f g)
   | PLike n T => ABool (like t n T)
+  | PParentStatic r f g s => of_name (via_parent_static t r f g s)
+  | PParentSelf r f g s => of_name (via_parent_self t r f g s)
+  | PParentParent r f g h => of_name (via_parent_parent t r f g h)
   end.
 
 Definition spec_ans (t : table) (p : probe) : ans :=
@@ -45,6 +52,18 @@ Definition spec_ans (t : table) (p : probe) : ans :=
   | PStatic r f s => AName (match resolve t r f with Some _ => resolve t r s | None => None end)
   | PParent r f g => AName (match resolve t r f with Some d => resolve_parent t d g | None => None end)
   | PLike n T => ABool (like_spec t n T)
+  | PParentStatic r f g s =>
+      AName (match resolve t r f with
+             | Some d => match resolve_parent t d g with Some _ => resolve t r s | None => None end
+             | None => None end)
+  | PParentSelf r f g s =>
+      AName (match resolve t r f with
+             | Some d => match resolve_parent t d g with Some e => resolve t e s | None => None end
+             | None => None end)
+  | PParentParent r f g h =>
+      AName (match resolve t r f with
+             | Some d => match resolve_parent t d g with Some e => resolve_parent t e h | None => None end
+             | None => None end)
   end.
 
 Definition ans_eqb (a b : ans) : bool :=
